@@ -66,7 +66,7 @@ pub assume_specification<'a, K, V, S, A, Q> [std::collections::HashMap::<K, V, S
         bridge_ok::<K, Q>() ==> match r {
             Some(v) => old(m)@.contains_key(bkey::<K, Q>(k)) && *v == old(m)@[bkey::<K, Q>(k)]
                 && final(m)@ == old(m)@.insert(bkey::<K, Q>(k), *final(v)),
-            None => !old(m)@.contains_key(bkey::<K, Q>(k)) && final(m)@ == old(m)@,
+            None => !old(m)@.contains_key(bkey::<K, Q>(k)) && *final(m) == *old(m),
         },
 ;
 
